@@ -6,3 +6,8 @@ import Dsi.Props.CodesB
 import Dsi.Props.Writer
 import Dsi.Props.Reader
 import Dsi.Props.BitReader
+import Dsi.Props.C11
+import Dsi.Props.C13
+import Dsi.Props.C14
+import Dsi.Props.C17
+import Dsi.Props.C19
